@@ -29,6 +29,17 @@ var checks = map[string]check{}
 func register(id, level string, fn checkFn) { checks[id] = check{level, fn} }
 
 func main() {
+	if len(os.Args) >= 3 && os.Args[1] == "worker" {
+		switch os.Args[2] {
+		case "sym":
+			os.Exit(run.SymWorker(os.Args[3:]))
+		case "beh":
+			os.Exit(run.BehWorker(os.Args[3:]))
+		case "c09":
+			os.Exit(c09Worker(os.Args[3:]))
+		}
+		os.Exit(2)
+	}
 	if len(os.Args) >= 3 && os.Args[1] == "symbp" {
 		os.Exit(run.SymBPSubprocess(os.Args[2:]))
 	}
